@@ -156,6 +156,7 @@ attribute [-simp] Gama.C06R.add_eq Gama.C06R.sub_eq Gama.C06R.mul_eq Gama.C06R.d
 theorem npG_dims (l : List Nat) : (dimsN (npG l)).sum = (npG l).m := npW_dims 2 l
 
 theorem npG_rows (l : List Nat) : RowsOK (toProblem (npG l)) := by
+  apply RowsOK.of_nodup
   intro i hi
   have : i = 0 ∨ i = 1 ∨ i = 2 := by have : i < 3 := hi; omega
   rcases this with rfl | rfl | rfl <;> simp [toProblem, npG, npW, Array.getD]
